@@ -1,9 +1,12 @@
 """Per-property configuration for ./check: jobs (test regexp, shards, budgets) and evidence texts."""
 
 
-def job(name, run, q=1, th=16, tq=300, tth=3000, race=False, tiers=("quick", "thorough")):
-    return dict(name=name, run=run, shards=dict(quick=q, thorough=th), timeout=dict(quick=tq, thorough=tth),
-                race=race, tiers=list(tiers))
+def job(name, run, q=1, th=16, tq=300, tth=3000, race=False, tiers=("quick", "thorough"), fuzz=None, fuzztime=60):
+    d = dict(name=name, run=run, shards=dict(quick=q, thorough=th), timeout=dict(quick=tq, thorough=tth),
+             race=race, tiers=list(tiers))
+    if fuzz:
+        d.update(fuzz=fuzz, fuzztime=fuzztime)
+    return d
 
 
 
@@ -72,7 +75,7 @@ PROPS = {
         "schedule exploration with an invariant evaluated at every quiescent point",
         "trusted: synctest.Wait() returns only when every goroutine of the case is durably blocked",
         "gated schedule exploration in synctest bubbles; oracle = in-flight equation at quiescent points + high-water mark + deadlock detection",
-        [job("main", "^TestC08$", q=4, th=16)]),
+        [job("main", "^TestC08$", q=4, th=16), job("race", "^TestC08$", q=1, th=4, race=True)]),
     "C09": P("Stop-on-error; no fake successes", "exploration",
         "cases = gated batches: EVERY position of the first failing item for n<=8 (quick)/16 (thorough), c in 0..4, stop and continue mode, failing item released while the other in-flight items stay parked, two release orders of the rest; all release orders for 4 small cases; rapid: second failing item, budgets 1..3, fallbacks that rescue or not; "
         "non-trivial = stop mode and at least one item after the failing one",
@@ -98,6 +101,77 @@ PROPS = {
         "cancellation-point enumeration in synctest bubbles + rapid; oracle = no-start-after-cancel + slot predicate + termination",
         [job("main", "^TestC11$", q=4, th=16)]),
 
+    "C12": P("Worker pool", "exploration",
+        "cases = WorkerPool scenarios in a bubble: every size -1..16 x {0,1,5w+3 tasks, three submitters} x gated/timed x two Wait rounds; rapid: sizes -1..16, 0..500 tasks, 1..4 submitters, 1..3 Submit/Wait rounds, gated release orders or random virtual durations; the same under the race detector with tasks doing plain writes read after Wait; "
+        "non-trivial = tasks>3*workers (queue overflows) or >=2 submitters or >=2 rounds",
+        "oracle: every task counter == 1; at every quiescent point a goroutine blocked in Wait() has not returned while a submitted task is unfinished; in-flight == min(workers, unfinished); plain writes visible after Wait (race detector: happens-before); after Close the bubble ends clean (a surviving worker = 'blocked goroutines remain' panic); lost task = deadlock panic",
+        "schedule exploration in deterministic bubbles + race-detector run",
+        "trusted: synctest leak/deadlock detection; Go race detector's happens-before tracking (visibility is decided only on the executions that occur)",
+        "gated schedule exploration in synctest bubbles with rapid; oracle = exactly-once counters, Wait-barrier predicate at quiescent points, leak detection, race detector",
+        [job("main", "^TestC12$", q=4, th=16), job("race", "^TestC12$", q=2, th=8, race=True)]),
+    "C13": P("Shared store linearizable and race-free", "exploration",
+        "cases = rapid-generated concurrent programs (2..6 goroutines x 1..8 ops over keys k0..k3: Set, Get, Has, Delete, Len, Keys, GetAll, Merge of 1..4 keys, Merge(nil), Clear, typed getters), each executed 20 times from a barrier on 16 real cores, every recorded history (call/return stamps from one atomic counter) checked by porcupine against a plain map; "
+        "plus atomicity stress (generation-stamped Merges of 8..64 keys and Clears vs spinning GetAll/Keys/Len readers); both also under -race; non-trivial = history with a multi-key operation overlapping a write of another goroutine",
+        "oracle: porcupine linearizability check of each history against the sequential map specification; stress invariant 'every snapshot is all-of-one-generation or empty'; any race-detector report with flyt frames",
+        "sampled schedules (the harness cannot own the schedule inside the store's critical sections without editing flyt): statistical evidence, stated as such",
+        "trusted: porcupine v1.3.0; the atomic stamp counter gives a sound real-time order; Unknown (timeout) is reported as inconclusive, never as violation",
+        "randomised concurrent history generation (rapid) + linearizability checking (porcupine) + invariant stress + race detector",
+        [job("main", "^TestC13$", q=4, th=16), job("race", "^TestC13$", q=2, th=8, race=True)]),
+    "C14": P("Store equals a map; isolated snapshots", "exploration",
+        "cases = rapid-generated operation sequences up to length 200 over keys {\"\", a, é, emoji, a\\x00, 160-char, b, k} and 19 value kinds (nil, NaN, maps, slices, structs, pointers, typed nils, funcs): Set, Delete, Clear, Merge(map|nil|alias of an earlier GetAll snapshot), GetAll, Keys, snapshot mutations (write/delete in returned maps; overwrite/append/sort returned key slices); "
+        "non-trivial = a Clear or Merge followed by further writes, and at least one snapshot mutation",
+        "oracle: model-based - after EVERY step Len/Keys/GetAll/Has/Get agree with a reference map and with each other; every snapshot ever handed out still equals its expected content; mutating snapshots or Merge arguments never changes the store",
+        "model-based state-machine testing",
+        "trusted: the reference map; value identity by pointer for reference kinds, NaN-aware equality",
+        "model-based property testing (rapid, shrinking sequences) against a reference map",
+        [job("main", "^TestC14$", q=4, th=16)]),
+    "C15": P("Typed accessors total/consistent/faithful", "exploration",
+        "cases = value recipes built with reflect: a fixed hostile list (all 12 numeric source kinds x boundary values, NaN/Inf/-0, named types, typed nils, funcs, chans, maps, arrays, anonymous structs containing slices/maps, nested/typed slices, Rec) evaluated exhaustively x every accessor family x {Result, SharedStore}; rapid: random recipes of depth<=3; thorough adds native coverage-guided fuzzing of the recipe decoder; "
+        "non-trivial = value is not one of the suite's plain table values (plain small int/float64, string, bool, nil)",
+        "oracle: no non-Must accessor panics; AsX/AsXOr/MustX mutually consistent; store getters agree with result accessors; ok exactly for the documented source types with Go's conversion as value (float->int compared only where Go defines it); AsSlice ok iff reflect kind is Slice with the elements of ToSlice; ToSlice(nil) empty, ToSlice(non-slice) = [v]",
+        "generated-input search with a reference model written from the doc comments",
+        "trusted: the reference conversions in c15_test.go (reflect-based)",
+        "property-based testing over reflect-built values (rapid) + native go fuzzing; oracle = documented-semantics reference model + cross-variant consistency",
+        [job("main", "^TestC15$", q=4, th=16), job("fuzz", "^$", fuzz="^FuzzC15$", fuzztime=90, tiers=("thorough",), tth=600)]),
+    "C16": P("Bind", "exploration",
+        "cases = (source recipe, destination form, prepopulated?, via store/result/missing key): 315 hostile sources x 24 destination forms exhaustively; rapid random recipes biased to JSON-marshalable composites; thorough adds native fuzzing; "
+        "non-trivial = destination type differs from the source type, or an error case",
+        "oracle: independent reference on twin-built values - own type => *dest = v (identity, incl. unexported fields and same reference); otherwise json.Marshal + json.Unmarshal into a twin destination; compare destination contents (deep, NaN-aware) and error nil-ness; never panics; source deep-equal to its twin afterwards; store.Bind == Result.Bind on non-nil values",
+        "differential generated search against encoding/json",
+        "trusted: encoding/json and reflect as the reference",
+        "differential property-based testing (rapid + native fuzz) against an encoding/json reference on twin values",
+        [job("main", "^TestC16$", q=4, th=16), job("fuzz", "^$", fuzz="^FuzzC16$", fuzztime=90, tiers=("thorough",), tth=600)]),
+    "C17": P("Function-style nodes pass values unchanged", "exploration",
+        "cases = all 8 Result/Any style combinations x option/builder x fallback x 8 payload kinds x exec{value, error-then-value, error Result with nil error} exhaustively; rapid: single nodes and flows of function-style leaves with random scripts; batch exec functions (Result/Any) incl. error-Result outcomes and pre-made error items; every case also run as its style twin; "
+        "non-trivial = mixed styles or nil / error-Result payload",
+        "oracle: exec receives prep's payload (identity), post receives the exec phase's payload; an error Result from exec reaches a Result-style post with IsError() and the same error instance, never wrapped a second time; Result-style and Any-style twins observe deep-equal payloads and the same outcome",
+        "generated search with exhaustive style matrix",
+        "trusted: trace recorder; Any-style post receiving nil or the error-carrying Result for an error Result is accepted",
+        T_PBT + "oracle = payload identity predicate + metamorphic style-twin relation",
+        [job("main", "^TestC17$", q=4, th=16)]),
+    "C18": P("Success never yields the empty action", "exploration",
+        "cases = exhaustive configuration matrix: every leaf kind/style, flow-as-node, batch nodes (9 prep forms x n in 0..3 x c in 0..2 x with/without post x builder/*BatchNode) x post in {empty, default, custom} x {run directly, routed step of a flow whose default edge leads to a sentinel}: 3048 configurations; every case is non-trivial by construction (distinct configuration)",
+        "oracle: err==nil => action non-empty and == default when post returned empty; in a flow the default-connected sentinel runs iff post returned empty or default; an edge on the empty action is never followed",
+        "exhaustive enumeration of the quantified configuration space",
+        "trusted: harness node constructors",
+        "exhaustive small-scope enumeration with a direct oracle",
+        [job("main", "^TestC18$", q=2, th=4)], exhaustive_only=True),
+    "C19": P("Configuration styles equivalent", "exploration",
+        "cases = setting sequences over {max retries, wait, batch concurrency, batch error handling, prep/exec/post/fallback function} x 3 values x {constructor option (both as NodeOption and as plain func(*BaseNode)), builder method, option applied to the embedded BaseNode later}, for NewNode and NewBatchNode: exhaustive for length<=2 (quick)/<=3 (thorough) over the four scalar parameters, rapid up to length 6 (+2) over all eight; "
+        "non-trivial = at least two different forms or an overwritten parameter",
+        "oracle (metamorphic): expected configuration = last-wins fold over the actual application order; the sequence as given, its all-option and its all-builder realisation must show equal getters AND equal probe behaviour in a bubble (attempts of a failing item, virtual wait between attempts, in-flight count at quiescence, stop vs continue, which function instance ran); untouched parameters keep the documented defaults",
+        "metamorphic generated search with exhaustive small scope",
+        "trusted: probe; function options passed to NewBatchNode are outside the asserted domain (silently ignored by that constructor, see DESIGN.md)",
+        "metamorphic property-based testing (rapid) + exhaustive short sequences; oracle = last-wins fold, three realisations compared on getters and probe runs",
+        [job("main", "^TestC19$", q=4, th=16)]),
+    "C20": P("Retry wait honoured and interruptible", "exploration",
+        "cases (virtual clock): single nodes - budgets 2..5 x every failure sequence x waits {1,2,5,10,25,50 ms, 1 h} x {no cancellation, deadline inside the wait after each attempt index} x 3 node kinds exhaustively, rapid beyond; batch items - rapid, sequential and c in 1..4, un-gated attempts with virtual durations, optional deadline; "
+        "non-trivial = >=2 attempts actually made with wait>0",
+        "oracle on virtual timestamps: start[a+1]-end[a] == w exactly; first attempt starts at 0; run ends when the last attempt ends (no wait after it); with a deadline at T inside a wait the run returns at exactly T with errors.Is(err, DeadlineExceeded) and no further attempt; per batch item the same on its own timeline, and the batch returns no later than max(deadline, last callback end)",
+        "exhaustive over the quantified single-node space, generated search for batches; exact because the clock is virtual",
+        "trusted: testing/synctest virtual time (no wall-clock assertion anywhere)",
+        "virtual-time property testing in synctest bubbles (rapid + exhaustive small scope); oracle = exact timestamp equations",
+        [job("main", "^TestC20$", q=4, th=16)]),
     "C01": dict(
         title="Node lifecycle",
         level="exploration",
